@@ -33,6 +33,8 @@ def setup(ctx, finding=FINDING):
     for m, mod in (("tools", tools), ("laue", laue)):
         for f in ("genhkl_all", "genhkl_unique", "genhkl_base", "sysabs", "sysabs_unique"):
             observe.watch("%s.%s" % (m, f), getattr(mod, f))
+        for f in ("genhkl_all", "genhkl_unique"):
+            ctx.hold(mod, f)            # returned lists: unchanged until the end of the case, then scribbled over
 
 
 def gen_cases(ctx, kind):
@@ -74,6 +76,8 @@ def gen_cases(ctx, kind):
                  "want_min": bool((rep + no) % 3 == 0),
                  "module": "laue" if (idx + rep) % 3 == 0 else "tools"}
             yield kind, q
+            if (idx + ctx.seed) % 9 == 0 and not big:
+                yield kind, dict(q, empty=1 + (idx // 9) % 2, target=60)          # empty shells are valid shells
             if cc == "rhombohedral" and not big:
                 # the same cell with four more cut-offs: whether a row of the rhombohedral walk ends early depends on where
                 # sintlmax falls between two lattice radii
@@ -104,6 +108,17 @@ def prepare(ctx, p):
     if shell is None:
         return None
     smin, smax = shell
+    if p.get("empty"):
+        # a shell that holds no allowed reflection: below the first one, or inside a gap between two lattice radii
+        H0, s0 = hkl.lattice_points(cell, smax)
+        radii = np.unique(np.round(s0, 12))
+        if p["empty"] == 1 and len(radii):
+            smin, smax = 0.0, 0.5 * float(radii[0])
+        elif len(radii) > 3:
+            k = int(rng.integers(1, len(radii) - 1))
+            lo, hi = float(radii[k]), float(radii[k + 1])
+            if hi - lo > 4e-6 * hi:
+                smin, smax = lo + 0.25 * (hi - lo), lo + 0.75 * (hi - lo)
     orc = hkl.Oracle(ops, cell, smin, smax)
     # the cell as the caller holds it: one object (list or float64 array) handed to every call of the case
     held = np.array(cell, float) if p["s"] % 3 else list(cell)
